@@ -208,6 +208,77 @@ theorem Kernel.batch_sum_fw_in_bounds {x ys : Shape} {r : Reduce} (hx : WF x)
   rw [hr, hxs, hys]
   exact ⟨batchSum_bounds _ _, rfl⟩
 
+/-- batch_concat_fw: every loop nest (one per operand) reads its operand and
+writes the output in bounds, and together they write every output element. -/
+theorem Kernel.batch_concat_fw_in_bounds {xs : List Shape} {ys : Shape} {ms : List Moves} (hxs : ∀ s ∈ xs, WF s)
+    (h : Front.batchConcatFw xs = .ok (ys, ms)) :
+    ms.length = xs.length ∧
+    (∀ p (hp : p < xs.length) (hp' : p < ms.length), ms[p].InBounds xs[p].size ys.size) ∧
+    (∀ o, o < ys.size → ∃ p, ∃ hp : p < ms.length, ∃ t, t < ms[p].count ∧ ms[p].didx t = o) := by
+  obtain ⟨x0, rest, hcons, _, _, _, _, hys, rfl, hall⟩ := batchConcatFw_plan hxs h
+  have hsum := sizes_sum (V := x0.volume) (fun s hs => (hall s hs).2)
+  refine ⟨batchConcatPlan_length _ _, ?_, ?_⟩
+  · intro p hp hp' t ht
+    rw [batchConcatPlan_get _ _ _ hp] at ht ⊢
+    simp only [batchConcatMoves, Nat.zero_add] at ht ⊢
+    have := take_sum_succ_le (xs.map (·.size)) p (by simpa using hp)
+    simp only [List.getElem_map, ← List.map_take] at this
+    rw [hys, ← hsum]
+    exact ⟨ht, by omega⟩
+  · intro o ho
+    rw [hys, ← hsum] at ho
+    obtain ⟨p, hp, h1, h2⟩ := exists_block _ o ho
+    have hp2 : p < xs.length := by simpa using hp
+    refine ⟨p, by rw [batchConcatPlan_length]; exact hp2, o - ((xs.take p).map (·.size)).sum, ?_, ?_⟩
+    · rw [batchConcatPlan_get _ _ _ hp2]
+      simp only [batchConcatMoves, List.getElem_map, ← List.map_take] at h1 h2 ⊢; omega
+    · rw [batchConcatPlan_get _ _ _ hp2]
+      simp only [batchConcatMoves, ← List.map_take] at h1 ⊢; omega
+
+/-- concat_fw: every loop nest (one per operand) reads its operand and writes the
+output in bounds, and together they write every output element. -/
+theorem Kernel.concat_fw_in_bounds {xs : List Shape} {ys : Shape} {ms : List Moves} {dim : Nat} (hxs : ∀ s ∈ xs, WF s)
+    (h : Front.concatFw xs dim = .ok (ys, ms)) :
+    ms.length = xs.length ∧
+    (∀ p (hp : p < xs.length) (hp' : p < ms.length), ms[p].InBounds xs[p].size ys.size) ∧
+    (∀ o, o < ys.size → ∃ p, ∃ hp : p < ms.length, ∃ t, t < ms[p].count ∧ ms[p].didx t = o) := by
+  obtain ⟨x0, rest, hcons, _, hy, _, _, hms⟩ := concatFw_plan hxs h
+  have hlen : ms.length = xs.length := by rw [hms, concatPlan_length]
+  have hL := lo_pos hy dim
+  have hU := up_pos hy dim
+  refine ⟨hlen, ?_, ?_⟩
+  · intro p hp hp'
+    obtain ⟨_, hm, hps, hyss, hN, hbp⟩ := concatFw_entry hxs h p hp
+    have hxp := hxs _ (List.getElem_mem hp)
+    rw [hm, hps, hyss]
+    apply concat_bounds hL (hxp.pos dim) hU hxp.bpos _ hbp
+    have := take_sum_succ_le (xs.map (·.get dim)) p (by simpa using hp)
+    simp only [List.getElem_map, ← List.map_take] at this
+    rw [hN]; exact this
+  · intro o ho
+    have ⟨_, _, _, hyss, hN, _⟩ := concatFw_entry hxs h 0 (by rw [hcons]; simp)
+    rw [hyss] at ho
+    have ho' : o < lo ys dim * ys.get dim * (up ys dim * ys.batch) := by rw [← Nat.mul_assoc]; exact ho
+    have hkk := Nat.lt_of_lt_of_eq (View3.onAxis_lt (lo := lo ys dim) (i := o) (hy.pos dim)) hN
+    obtain ⟨p, hp, h1, h2⟩ := exists_block _ _ hkk
+    have hp2 : p < xs.length := by simpa using hp
+    obtain ⟨hp', hm, _, _, _, hbp⟩ := concatFw_entry hxs h p hp2
+    simp only [List.getElem_map, ← List.map_take] at h1 h2
+    have hcc := View3.above_lt ho'
+    have hc : View3.above (lo ys dim) (ys.get dim) o % up ys dim < up ys dim := Nat.mod_lt _ hU
+    have hb : View3.above (lo ys dim) (ys.get dim) o / up ys dim < ys.batch := Nat.div_lt_of_lt_mul hcc
+    have ⟨s1, s2, _⟩ := concat_step (B := ys.batch) (L := lo ys dim) (N := ys.get dim) (U := up ys dim)
+      (s := ((xs.take p).map (·.get dim)).sum) (n := xs[p].get dim) (Bp := xs[p].batch)
+      (a := View3.below (lo ys dim) o) (k := View3.onAxis (lo ys dim) (ys.get dim) o - ((xs.take p).map (·.get dim)).sum)
+      (View3.below_lt hL) (by omega) hc hb hbp
+    refine ⟨p, hp', _, by rw [hm]; exact s1, ?_⟩
+    rw [hm, s2]
+    have e1 : ((xs.take p).map (·.get dim)).sum + (View3.onAxis (lo ys dim) (ys.get dim) o - ((xs.take p).map (·.get dim)).sum)
+        = View3.onAxis (lo ys dim) (ys.get dim) o := by omega
+    have e2 : View3.above (lo ys dim) (ys.get dim) o % up ys dim + up ys dim * (View3.above (lo ys dim) (ys.get dim) o / up ys dim)
+        = View3.above (lo ys dim) (ys.get dim) o := Nat.mod_add_div _ _
+    rw [e1, e2, View3.comp3_decomp]
+
 /-! ### copy, identity, creation -/
 
 theorem Kernel.copy_in_bounds (n : Nat) :
